@@ -561,6 +561,24 @@ def _resolve_inherited_binding(
     return None
 
 
+def _explicit_set_with_attrpaths(
+    target_set: AttributeSet,
+    segments: list[str],
+    attrpath_root: Binding | None,
+) -> AttributeSet | None:
+    """Find an explicit set on the path that keeps attrpath bindings of its own.
+
+    Such a set renders from its attrpath order, so the rest of the path has to be
+    edited with that set as the target to keep the order in sync.
+    """
+    if len(segments) < 2 or attrpath_root is not None:
+        return None
+    head = _find_binding(target_set, segments[0])
+    if head is None or head.nested or not isinstance(head.value, AttributeSet):
+        return None
+    return head.value if head.value.attrpath_order else None
+
+
 def _set_value_in_attrset(
     target_set: AttributeSet,
     npath: str,
@@ -589,6 +607,16 @@ def _set_value_in_attrset(
     attrpath_root = _find_attrpath_root(target_set, segments[0])
     if attrpath_leaf is not None:
         attrpath_leaf.value = value_expr
+        return
+
+    inner_set = _explicit_set_with_attrpaths(target_set, segments, attrpath_root)
+    if inner_set is not None:
+        _set_value_in_attrset(
+            inner_set,
+            ".".join(segments[1:]),
+            value_expr,
+            let_bindings=let_bindings,
+        )
         return
 
     if len(segments) == 1:
@@ -672,6 +700,11 @@ def _remove_value_in_attrset(target_set: AttributeSet, npath: str) -> None:
     attrpath_root = _find_attrpath_root(target_set, segments[0])
     if attrpath_leaf is not None:
         _remove_attrpath_value(target_set, segments)
+        return
+
+    inner_set = _explicit_set_with_attrpaths(target_set, segments, attrpath_root)
+    if inner_set is not None:
+        _remove_value_in_attrset(inner_set, ".".join(segments[1:]))
         return
 
     if len(segments) == 1:
@@ -930,27 +963,5 @@ def remove_value(source: NixSourceCode, npath: str) -> str:
         return rebuilt
 
     resolution = _resolve_npath(source, npath)
-    target_set = resolution.target_set
-    segments = resolution.segments
-    if resolution.attrpath_leaf is not None:
-        _remove_attrpath_value(target_set, segments)
-        return source.rebuild()
-    if len(segments) == 1:
-        key = segments[0]
-        if resolution.attrpath_root is not None:
-            raise KeyError(key)
-        binding = _find_binding(target_set, key)
-        if binding is None:
-            raise KeyError(key)
-        del target_set[key]
-        return source.rebuild()
-    if resolution.attrpath_root is not None:
-        _remove_attrpath_value(target_set, segments)
-        return (
-            source.rebuild()
-        )  # pragma: no cover - attrpath branch covered in other tests
-    parent_set, final_key = _resolve_npath_parent(
-        target_set, npath, create_missing=False
-    )
-    del parent_set[final_key]
+    _remove_value_in_attrset(resolution.target_set, npath)
     return source.rebuild()
